@@ -266,6 +266,47 @@ fn main() {
             }
             if bad.is_empty() { println!("OK join: {} events agree with the specification", seen.len()) } else { println!("REPRODUCED join: {}", bad.join("; ")) }
         }
+        // partwin <PartitionedTumblingWindow|PartitionedSlidingWindow|PartitionedSessionWindow>: the partitioned wrapper against one plain window per key,
+        // over every stream of 5 events with keys {1, 2, "default", missing} and increasing-or-equal timestamps
+        "partwin" => {
+            use chrono::{Duration, TimeZone, Utc};
+            use std::sync::Arc;
+            use varpulis_runtime::window::*;
+            let kind = a[2].as_str();
+            let keyvals: Vec<Option<Value>> = vec![Some(Value::Int(1)), Some(Value::Int(2)), Some(Value::Str("default".into())), None];
+            let steps = [0i64, 400, 1000, 2500];
+            let mut bad = Vec::new(); let mut count = 0usize;
+            let ids = |o: &Option<Vec<varpulis_runtime::event::SharedEvent>>| -> Option<Vec<i64>> { o.as_ref().map(|v| v.iter().map(|e| e.get("i").and_then(|x| x.as_int()).unwrap_or(-1)).collect()) };
+            for sid in 0..(keyvals.len() * steps.len()).pow(5) {
+                if sid % 7 != 0 && sid % 11 != 0 { continue }      // a fixed 1/5 sample of the 1M streams keeps the probe under a few seconds
+                let mut x = sid; let mut t = 0i64;
+                enum P { T(PartitionedTumblingWindow), S(PartitionedSlidingWindow), G(PartitionedSessionWindow) }
+                enum W1 { T(TumblingWindow), S(SlidingWindow), G(SessionWindow) }
+                let mut part = match kind { "PartitionedTumblingWindow" => P::T(PartitionedTumblingWindow::new("k".into(), Duration::milliseconds(1000))),
+                                            "PartitionedSlidingWindow" => P::S(PartitionedSlidingWindow::new("k".into(), Duration::milliseconds(2000), Duration::milliseconds(1000))),
+                                            _ => P::G(PartitionedSessionWindow::new("k".into(), Duration::milliseconds(1000))) };
+                let mut plain: std::collections::HashMap<String, W1> = std::collections::HashMap::new();
+                let mut hist = Vec::new();
+                for i in 0..5 {
+                    let c = x % (keyvals.len() * steps.len()); x /= keyvals.len() * steps.len();
+                    let kv = &keyvals[c % keyvals.len()]; t += steps[c / keyvals.len()];
+                    let mut ev = Event::new("E").with_field("i", Value::Int(i));
+                    if let Some(v) = kv { ev = ev.with_field("k", v.clone()) }
+                    ev.timestamp = Utc.timestamp_millis_opt(t).unwrap();
+                    let key = match kv { None => "default".to_string(), Some(Value::Int(n)) => n.to_string(), Some(Value::Str(s)) => s.to_string(), _ => unreachable!() };
+                    hist.push((key.clone(), t));
+                    let sh = Arc::new(ev);
+                    let got = match &mut part { P::T(p) => p.add_shared(sh.clone()), P::S(p) => p.add_shared(sh.clone()), P::G(p) => p.add_shared(sh.clone()) };
+                    let w = plain.entry(key).or_insert_with(|| match kind { "PartitionedTumblingWindow" => W1::T(TumblingWindow::new(Duration::milliseconds(1000))),
+                                                                          "PartitionedSlidingWindow" => W1::S(SlidingWindow::new(Duration::milliseconds(2000), Duration::milliseconds(1000))),
+                                                                          _ => W1::G(SessionWindow::new(Duration::milliseconds(1000))) });
+                    let want = match w { W1::T(p) => p.add_shared(sh.clone()), W1::S(p) => p.add_shared(sh.clone()), W1::G(p) => p.add_shared(sh.clone()) };
+                    if ids(&got) != ids(&want) && bad.len() < 3 { bad.push(format!("{kind}: after {hist:?} the partitioned window emitted {:?}, one window per key emits {:?}", ids(&got), ids(&want))) }
+                }
+                count += 1;
+            }
+            if bad.is_empty() { println!("OK partwin {kind}: {count} streams agree with one window per key") } else { println!("REPRODUCED partwin: {}", bad.join("; ")) }
+        }
         "seqstep" => {
             // bounded probe of "every reported match is a genuine occurrence" through SaseEngine::process: SEQ(S as s, X [filter] as t) and
             // SEQ(S as s, X [filter] as t, Y as u) over every stream of 4 events from a 6-event alphabet; every reported match is checked against
